@@ -350,7 +350,7 @@ var writerErrors = []error{
 	errWriteSentinel,
 	&fs.PathError{Op: "write", Path: "/data/out.avro", Err: syscall.ENOSPC},
 	fmt.Errorf("upload part 7: %w", errWriteSentinel),
-	io.EOF,                                  // a pipe or connection whose other end has gone: just another error to a writer
+	io.EOF, // a pipe or connection whose other end has gone: just another error to a writer
 	fmt.Errorf("peer closed: %w", io.EOF),
 	io.ErrUnexpectedEOF,
 	io.ErrShortWrite,
